@@ -13,8 +13,20 @@
 //          6 the same object used twice (a warm-up communication in the opposite direction first);
 //          7 VariableSizeCommunicator<non-default Allocator>
 //     t  = DataType of the handle: 0 long, 1 double, 2 int, 3 a POD struct (generic MPITraits), 4 std::pair<int,double>
+//          8 copy made, the COPY communicates and is destroyed, then the ORIGINAL is observed (source unaffected);
+//          9 b = a, b communicates, then a is observed; 10 construction from std::move(original); 11 std::swap(a, b) with a
+//          communicator over another map/buffer, the swapped-in one is observed; 12 the interface map is rebuilt in place
+//          between two communications; 13 the same object first used with a handle of the other kind (fixed<->variable)
+//          and another DataType
+//     t  additionally 5 long double, 6 std::complex<double>, 7 Dune::FieldVector<double,2>
 //     mb = value of DUNE_PARALLEL_MAX_COMMUNICATION_BUFFER_SIZE the binary must have been compiled with (0: undefined);
 //          a case whose mb differs from the binary's prints BADCASE
+//   further optional trailing fields  k hk al  (default 0 0 0):
+//     k  = communicator handed to the constructor: 0 split of MPI_COMM_WORLD in world order, 1 split with REVERSED rank order,
+//          2 split with rotated rank order, 3 an MPI_Comm_dup of kind 0, 4 MPI_COMM_SELF (P = 1 only).  "Rank p" of the case is
+//          always the rank in THAT communicator.
+//     hk = handle class: 0 non-const members, size_t size(size_t); 1 const-qualified members, unsigned size(int) const (t = 0, 1 only)
+//     al = 1: where first and second list of a map entry are equal, the two InterfaceInformation objects share one index array
 // Output: ONE line per case, printed by rank 0:
 //   R0 <src>><idx>:<n>:<item>.<item>... ... ; R1 ... || <p>><q>:<len>.<len>... ...
 //   left of "||": per rank the scatter calls with n > 0, stably grouped by the source rank decoded from the
@@ -35,6 +47,8 @@
 #include <string>
 #include <vector>
 #include <unistd.h>
+#include <complex>
+#include <dune/common/fvector.hh>
 #include <dune/common/parallel/interface.hh>
 #include <dune/common/parallel/variablesizecommunicator.hh>
 
@@ -69,6 +83,15 @@ template<> struct Codec<std::pair<int,double> > {
   static long dec(const std::pair<int,double>& p) { return p.second == 0.5 * (double) p.first ? (long) p.first : -7; }
 };
 
+template<> struct Codec<std::complex<double> > {
+  static std::complex<double> enc(long c) { return std::complex<double>((double) c, -(double) c); }
+  static long dec(const std::complex<double>& z) { return z.imag() == -z.real() ? (long) z.real() : -7; }
+};
+template<> struct Codec<Dune::FieldVector<double,2> > {
+  static Dune::FieldVector<double,2> enc(long c) { Dune::FieldVector<double,2> v; v[0] = (double) c; v[1] = (double) c + 0.5; return v; }
+  static long dec(const Dune::FieldVector<double,2>& v) { return v[1] == v[0] + 0.5 ? (long) v[0] : -7; }
+};
+
 template<class T>
 struct RecHandle
 {
@@ -92,8 +115,32 @@ struct RecHandle
   }
 };
 
+// the same handle with const-qualified members and other integer types in the interface
+template<class T>
+struct RecHandleC
+{
+  typedef T DataType;
+  bool fixed;
+  int rank;
+  std::vector<long> sizes;
+  mutable std::vector<Call> log;
+  bool fixedSize() const { return fixed; }
+  unsigned size(int i) const { return i >= 0 && (std::size_t) i < sizes.size() ? (unsigned) sizes[i] : 0u; }
+  template<class B> void gather(B& buf, int i) const
+  {
+    long n = (long) size(i);
+    for (long k = 0; k < n; ++k) buf.write(Codec<T>::enc(rank * 1000000L + (long) i * 1000L + k));
+  }
+  template<class B> void scatter(B& buf, int i, unsigned n) const
+  {
+    Call c; c.idx = (long) i; c.n = (long) n;
+    if (n <= 400000) for (unsigned k = 0; k < n; ++k) { T v; buf.read(v); c.items.push_back(Codec<T>::dec(v)); }
+    log.push_back(c);
+  }
+};
+
 struct Entry { int p, q; std::vector<long> first, second; };
-struct Case { int P, mode, dir; long buf; unsigned long long seed; int NI; std::vector<Entry> es; std::vector<std::vector<long> > sz; int v = 0, t = 0; long mb = 0; };
+struct Case { int P, mode, dir; long buf; unsigned long long seed; int NI; std::vector<Entry> es; std::vector<std::vector<long> > sz; int v = 0, t = 0; long mb = 0; int k = 0, hk = 0, al = 0; };
 
 static bool parse(const std::string& line, Case& c)
 {
@@ -109,7 +156,8 @@ static bool parse(const std::string& line, Case& c)
   c.sz.assign(c.P, std::vector<long>(c.NI));
   for (auto& r : c.sz) for (auto& x : r) is >> x;
   if (is.fail()) return false;
-  if (!(is >> c.v >> c.t >> c.mb)) { c.v = 0; c.t = 0; c.mb = 0; }
+  if (!(is >> c.v >> c.t >> c.mb)) { c.v = 0; c.t = 0; c.mb = 0; return true; }
+  if (!(is >> c.k >> c.hk >> c.al)) { c.k = 0; c.hk = 0; c.al = 0; }
   return true;
 }
 
@@ -141,7 +189,8 @@ static void fill_map(Map& imap, const Case& c, int rank)
   for (auto& e : c.es) if (e.p == rank) {
     auto& pr = imap[e.q];
     pr.first.reserve(e.first.size() + 1);  for (long x : e.first) pr.first.add((std::size_t) x);
-    pr.second.reserve(e.second.size() + 1); for (long x : e.second) pr.second.add((std::size_t) x);
+    if (c.al && !e.first.empty() && e.first == e.second) pr.second = pr.first;      // two InterfaceInformation, one index array
+    else { pr.second.reserve(e.second.size() + 1); for (long x : e.second) pr.second.add((std::size_t) x); }
     // read back through the non-const accessors and the comparison operators of InterfaceInformation
     bool okrb = pr.first.size() == e.first.size() && pr.second.size() == e.second.size();
     for (std::size_t k = 0; okrb && k < e.first.size(); ++k) okrb = (pr.first[k] == (std::size_t) e.first[k]);
@@ -151,7 +200,18 @@ static void fill_map(Map& imap, const Case& c, int rank)
     if (!okrb) { std::fprintf(stderr, "ERROR C06-INTERFACE-READBACK rank=%d neighbour=%d\n", rank, e.q); _exit(87); }
   }
 }
+// undo the sharing before anything frees the arrays (InterfaceInformation::free() deletes the array it points to)
+template<class Map> static void unshare(Map& imap, const Case& c, int rank)
+{
+  if (!c.al) return;
+  for (auto& e : c.es) if (e.p == rank && !e.first.empty() && e.first == e.second) {
+    auto it = imap.find(e.q);
+    if (it != imap.end()) it->second.second = Dune::InterfaceInformation();
+  }
+}
 template<class Map> static void free_map(Map& imap) { for (auto& kv : imap) { kv.second.first.free(); kv.second.second.free(); } }
+// the transposed interface (first and second list exchanged)
+static Case transposed(const Case& c) { Case t = c; for (auto& e : t.es) std::swap(e.first, e.second); t.dir = 1 - c.dir; t.seed = c.seed ? c.seed + 1 : 0; return t; }
 
 template<class VSC, class H>
 static void communicate(VSC& comm, H& h, const Case& c, int tmo)
@@ -168,18 +228,19 @@ static void communicate(VSC& comm, H& h, const Case& c, int tmo)
 #ifndef C06_NO_SPECIAL_MEMBERS
 // the special members of the communicator, kept in one place: if they stop compiling, checks/C06.py rebuilds the
 // driver with -DC06_NO_SPECIAL_MEMBERS, reports `compile:special-members` and still runs everything else
-template<class T>
+template<class H>
 static void special_members(const Case& c, MPI_Comm cm, const Dune::VariableSizeCommunicator<>::InterfaceMap& imap, std::size_t buf,
-                            RecHandle<T>& h, int tmo)
+                            H& h, int tmo)
 {
   typedef Dune::VariableSizeCommunicator<> VSC;
+  Case w = c; w.dir = 1 - c.dir; w.seed = c.seed ? c.seed + 1 : 0;       // warm-up communication (not observed)
   if (c.v == 4) {
     VSC* orig = new VSC(cm, imap, buf);
     const VSC& corig = *orig;
     VSC copy(corig);                   // copy construction from a const source
     delete orig;                       // the copy owns its own duplicated communicator
     communicate(copy, h, c, tmo);
-  } else {
+  } else if (c.v == 5) {
     VSC::InterfaceMap other;           // an unrelated (empty) interface and a useless buffer size
     VSC a(cm, imap, buf);
     VSC b(cm, other, 1);
@@ -187,15 +248,36 @@ static void special_members(const Case& c, MPI_Comm cm, const Dune::VariableSize
     b = ca;
     VSC& br = b; b = br;               // self-assignment must leave it intact
     communicate(b, h, c, tmo);
+  } else if (c.v == 8) {
+    VSC orig(cm, imap, buf);
+    { const VSC& corig = orig; VSC copy(corig); H warm = h; communicate(copy, warm, w, tmo); }   // copy used and destroyed
+    communicate(orig, h, c, tmo);      // the source of the copy must be unaffected
+  } else if (c.v == 9) {
+    VSC::InterfaceMap other;
+    VSC a(cm, imap, buf);
+    { VSC b(cm, other, 1); const VSC& ca = a; b = ca; H warm = h; communicate(b, warm, w, tmo); }
+    communicate(a, h, c, tmo);         // the source of the assignment must be unaffected
+  } else if (c.v == 10) {
+    VSC* orig = new VSC(cm, imap, buf);
+    VSC moved(std::move(*orig));       // no move constructor is declared: this must behave as a copy
+    delete orig;
+    communicate(moved, h, c, tmo);
+  } else {                             // 11
+    VSC::InterfaceMap other;
+    VSC a(cm, imap, buf);
+    VSC b(cm, other, 1);
+    std::swap(a, b);                   // b now has the configured map and buffer, a the empty map
+    { H warm = h; communicate(a, warm, w, tmo); if (!warm.log.empty()) { std::fprintf(stderr, "ERROR C06-SWAP empty interface scattered\n"); _exit(88); } }
+    communicate(b, h, c, tmo);
   }
 }
 #endif
 
-template<class T>
+template<class H>
 static void run_case(const Case& c, int rank, MPI_Comm cm, int tmo, std::vector<long>& ser, std::vector<long>& tr, bool& skipped)
 {
   typedef Dune::VariableSizeCommunicator<> VSC;
-  RecHandle<T> h; h.fixed = (c.mode == 0); h.rank = rank; h.sizes = c.sz[rank];
+  H h; h.fixed = (c.mode == 0); h.rank = rank; h.sizes = c.sz[rank];
   const std::size_t buf = (std::size_t) c.buf;
   if (c.v == 2 || c.v == 3) {
     OpenInterface iface(cm);
@@ -203,29 +285,48 @@ static void run_case(const Case& c, int rank, MPI_Comm cm, int tmo, std::vector<
     const Dune::Interface& ci = iface;
     if (c.v == 2) { VSC comm(ci, buf); communicate(comm, h, c, tmo); }
     else          { VSC comm(ci);      communicate(comm, h, c, tmo); }
+    unshare(iface.interfaces(), c, rank);
     // ~Interface frees the index arrays
   } else if (c.v == 7) {
     typedef Dune::VariableSizeCommunicator<CountingAlloc<std::pair<Dune::InterfaceInformation,Dune::InterfaceInformation> > > AVSC;
     typename AVSC::InterfaceMap imap;
     fill_map(imap, c, rank);
     { AVSC comm(cm, imap, buf); communicate(comm, h, c, tmo); }
-    free_map(imap);
+    unshare(imap, c, rank); free_map(imap);
   } else {
     VSC::InterfaceMap imap;
+    if (c.v == 12) {
+      // the communicator keeps a POINTER to the map: rebuild the map in place between two communications.  First the
+      // transposed interface in the opposite direction (the same communication pattern), then the real one.
+      Case t = transposed(c);
+      fill_map(imap, t, rank);
+      VSC comm(cm, imap, buf);
+      { H warm = h; communicate(comm, warm, t, tmo); }
+      unshare(imap, t, rank); free_map(imap); imap.clear();
+      fill_map(imap, c, rank);
+      communicate(comm, h, c, tmo);
+    } else {
     fill_map(imap, c, rank);
     if (c.v == 1) { VSC comm(cm, imap); communicate(comm, h, c, tmo); }
-    else if (c.v == 4 || c.v == 5) {
+    else if (c.v == 4 || c.v == 5 || (c.v >= 8 && c.v <= 11)) {
 #ifndef C06_NO_SPECIAL_MEMBERS
-      special_members<T>(c, cm, imap, buf, h, tmo);
+      special_members(c, cm, imap, buf, h, tmo);
 #else
       skipped = true;                    // this binary was built without the copy constructor / assignment paths
 #endif
     } else if (c.v == 6) {
       VSC comm(cm, imap, buf);
-      { RecHandle<T> warm = h; Case w = c; w.dir = 1 - c.dir; w.seed = c.seed ? c.seed + 1 : 0; communicate(comm, warm, w, tmo); }
+      { H warm = h; Case w = c; w.dir = 1 - c.dir; w.seed = c.seed ? c.seed + 1 : 0; communicate(comm, warm, w, tmo); }
       communicate(comm, h, c, tmo);      // trace restarts: only the second communication is observed
+    } else if (c.v == 13) {
+      // the same object first with a handle of the other kind and another DataType: fixed size 1 <-> variable sizes
+      VSC comm(cm, imap, buf);
+      RecHandle<float> warm; warm.fixed = !h.fixed; warm.rank = 0; warm.sizes.assign(c.sz[rank].size(), 1);
+      { Case w = c; w.seed = c.seed ? c.seed + 1 : 0; communicate(comm, warm, w, tmo); }
+      communicate(comm, h, c, tmo);
     } else { VSC comm(cm, imap, buf); communicate(comm, h, c, tmo); }
-    free_map(imap);
+    }
+    unshare(imap, c, rank); free_map(imap);
   }
   for (auto& cl : h.log) { ser.push_back(cl.idx); ser.push_back(cl.n); ser.push_back((long) cl.items.size()); for (long v : cl.items) ser.push_back(v); }
   std::vector<int> t(3 * 4096);
@@ -233,6 +334,9 @@ static void run_case(const Case& c, int rank, MPI_Comm cm, int tmo, std::vector<
   if (nt > 4096) nt = 4096;
   for (int i = 0; i < nt; ++i) if (t[3*i+1] == 933399) { tr.push_back(t[3*i]); tr.push_back(t[3*i+2]); }
 }
+
+// role (rank in the case's communicator) of world rank r
+static int role_of(int kind, int r, int P) { return kind == 1 ? P - 1 - r : kind == 2 ? (r + P - 1) % P : r; }
 
 int main(int argc, char** argv)
 {
@@ -243,24 +347,37 @@ int main(int argc, char** argv)
   const int rank = g_rank;
   int tmo = std::getenv("C06_CASE_TIMEOUT") ? std::atoi(std::getenv("C06_CASE_TIMEOUT")) : 20;
   std::signal(SIGALRM, on_alarm);
-  std::vector<MPI_Comm> sub(np + 1, MPI_COMM_NULL);
-  for (int P = 1; P <= np; ++P) MPI_Comm_split(MPI_COMM_WORLD, rank < P ? 0 : MPI_UNDEFINED, rank, &sub[P]);
+  std::vector<std::vector<MPI_Comm> > sub(5, std::vector<MPI_Comm>(np + 1, MPI_COMM_NULL));
+  for (int P = 1; P <= np; ++P) {
+    const int color = rank < P ? 0 : MPI_UNDEFINED;
+    MPI_Comm_split(MPI_COMM_WORLD, color, rank, &sub[0][P]);
+    MPI_Comm_split(MPI_COMM_WORLD, color, -rank, &sub[1][P]);                 // reversed rank order
+    MPI_Comm_split(MPI_COMM_WORLD, color, (rank + P - 1) % P, &sub[2][P]);    // rotated rank order
+    if (rank < P) MPI_Comm_dup(sub[0][P], &sub[3][P]);
+    sub[4][P] = (P == 1 && rank == 0) ? MPI_COMM_SELF : sub[0][P];
+  }
   std::ifstream in(argv[1]);
   std::string line;
   while (std::getline(in, line)) {
     ++g_case;
     Case c;
-    bool ok = parse(line, c) && c.P >= 1 && c.P <= np && c.mb == BINARY_MB && c.v >= 0 && c.v <= 7 && c.t >= 0 && c.t <= 4;
+    bool ok = parse(line, c) && c.P >= 1 && c.P <= np && c.mb == BINARY_MB && c.v >= 0 && c.v <= 13 && c.t >= 0 && c.t <= 7 && c.k >= 0 && c.k <= 4 && (c.k != 4 || c.P == 1) && (c.hk == 0 || c.t <= 1);
     std::vector<long> ser;           // serialised log of this rank: idx n nitems items...
     std::vector<long> tr;            // dest count pairs
     bool skipped = false;
     if (ok && rank < c.P) {
+      MPI_Comm cm = sub[c.k][c.P];
+      int role = 0; MPI_Comm_rank(cm, &role);
+      if (role != role_of(c.k, rank, c.P)) { std::fprintf(stderr, "ERROR C06-ROLE world=%d role=%d\n", rank, role); _exit(89); }
       switch (c.t) {
-        case 1: run_case<double>(c, rank, sub[c.P], tmo, ser, tr, skipped); break;
-        case 2: run_case<int>(c, rank, sub[c.P], tmo, ser, tr, skipped); break;
-        case 3: run_case<Pod>(c, rank, sub[c.P], tmo, ser, tr, skipped); break;
-        case 4: run_case<std::pair<int,double> >(c, rank, sub[c.P], tmo, ser, tr, skipped); break;
-        default: run_case<long>(c, rank, sub[c.P], tmo, ser, tr, skipped);
+        case 1: if (c.hk) run_case<RecHandleC<double> >(c, role, cm, tmo, ser, tr, skipped); else run_case<RecHandle<double> >(c, role, cm, tmo, ser, tr, skipped); break;
+        case 2: run_case<RecHandle<int> >(c, role, cm, tmo, ser, tr, skipped); break;
+        case 3: run_case<RecHandle<Pod> >(c, role, cm, tmo, ser, tr, skipped); break;
+        case 4: run_case<RecHandle<std::pair<int,double> > >(c, role, cm, tmo, ser, tr, skipped); break;
+        case 5: run_case<RecHandle<long double> >(c, role, cm, tmo, ser, tr, skipped); break;
+        case 6: run_case<RecHandle<std::complex<double> > >(c, role, cm, tmo, ser, tr, skipped); break;
+        case 7: run_case<RecHandle<Dune::FieldVector<double,2> > >(c, role, cm, tmo, ser, tr, skipped); break;
+        default: if (c.hk) run_case<RecHandleC<long> >(c, role, cm, tmo, ser, tr, skipped); else run_case<RecHandle<long> >(c, role, cm, tmo, ser, tr, skipped);
       }
     }
     // collect on world rank 0 (blocking collectives; a lost rank shows up as a hang of this step)
@@ -278,8 +395,9 @@ int main(int argc, char** argv)
       if (!ok) { std::cout << "BADCASE" << std::endl; continue; }
       if (skipped) { std::cout << "SKIPPED-SPECIAL-MEMBERS" << std::endl; continue; }
       std::ostringstream pub, deep;
-      for (int r = 0; r < c.P; ++r) {
-        const long* p = rb.data() + displs[r];
+      for (int r = 0; r < c.P; ++r) {                 // r = role; its data came from the world rank playing it
+        int wr = 0; for (int x = 0; x < c.P; ++x) if (role_of(c.k, x, c.P) == r) wr = x;
+        const long* p = rb.data() + displs[wr];
         long nser = p[0]; const long* s = p + 1; const long* e = s + nser;
         std::vector<Call> calls;
         while (s < e) { Call cl; cl.idx = s[0]; cl.n = s[1]; long ni = s[2]; s += 3; cl.items.assign(s, s + ni); s += ni; calls.push_back(cl); }
@@ -298,7 +416,7 @@ int main(int argc, char** argv)
             pub << " " << sr << ">" << cl.idx << ":" << cl.n << ":";
             for (std::size_t k = 0; k < cl.items.size(); ++k) pub << (k ? "." : "") << cl.items[k];
           }
-        const long* t = e; const long* te = p + lens[r];
+        const long* t = e; const long* te = p + lens[wr];
         for (int q = 0; q < c.P; ++q) {
           bool any = false;
           for (const long* u = t; u < te; u += 2) if (u[0] == q) { deep << (any ? "." : (std::string(" ") + std::to_string(r) + ">" + std::to_string(q) + ":")) << u[1]; any = true; }
@@ -312,7 +430,7 @@ int main(int argc, char** argv)
   unsigned long long loc[3] = {sw, ro, dl}, glob[3] = {0, 0, 0};
   MPI_Reduce(loc, glob, 3, MPI_UNSIGNED_LONG_LONG, MPI_SUM, 0, MPI_COMM_WORLD);
   if (rank == 0) std::cerr << "C06-SHIM sweeps=" << glob[0] << " reordered=" << glob[1] << " delays=" << glob[2] << std::endl;
-  for (int P = 1; P <= np; ++P) if (sub[P] != MPI_COMM_NULL) MPI_Comm_free(&sub[P]);
+  for (int P = 1; P <= np; ++P) for (int kd = 0; kd < 4; ++kd) if (sub[kd][P] != MPI_COMM_NULL) MPI_Comm_free(&sub[kd][P]);
   MPI_Finalize();
   return 0;
 }
